@@ -1022,10 +1022,11 @@ BRepeatLoop(n, i, xs, s, c, rets, part, ev) ==
 BSelectLoop(subs, i, obj, s, c, ev) ==
     IF i > Len(subs) THEN RErr("SelectError", s, c, ev)
     ELSE LET r == B(subs[i], obj, Fresh, c) IN
-         IF r.ok THEN [ Then(SWrite(s, c, VBytes(r.s.data), Len(r.s.data)), LAMBDA w : ROk(obj, w.s, w.c, <<>>))
+         \* the alternatives run in the surrounding context: what they leave there (_index) stays
+         IF r.ok THEN [ Then(SWrite(s, r.c, VBytes(r.s.data), Len(r.s.data)), LAMBDA w : ROk(obj, w.s, w.c, <<>>))
                         EXCEPT !.ev = ev \o r.ev \o @ ]
          ELSE IF r.err \in {"ExplicitError", OutOfModel, "Diverges"} THEN [r EXCEPT !.ev = ev \o @, !.s = s]
-         ELSE BSelectLoop(subs, i + 1, obj, s, c, ev \o r.ev)
+         ELSE BSelectLoop(subs, i + 1, obj, s, r.c, ev \o r.ev)
 BUnionLoop(subs, i, obj, s, c, ev) ==
     IF i > Len(subs) THEN RErr("UnionError", s, c, ev)
     ELSE LET sc == subs[i]
